@@ -218,7 +218,7 @@ func lexTwig(src string) []string {
 var hostileTokens = []string{"{%", "-%}", "%}", "{{", "}}", "{{-", "(", ")", "|", "=", "in", "as", "with", "import", "endverbatim", "\x00", "\xff", "'", "\"", "[", "{", ",", ".", "~", "?", ":", "is", "not",
 	"endfor", "endif", "else", "elseif", "endblock", "endmacro", "only", "ignore", "missing", "sandboxed", "extends", "include", "from", "macro", "block", "set", "do", "apply", "verbatim", "spaceless", "-", "\\", "#}", "{#", "é", "99999", "1e3", "..", "||", "&&", "??", "'a\\'", "\"b\\\"", "'\\'", "\\'", "'x\\\\'"}
 
-const c05SrcRule = "sources derived from generated templates (control flow, inheritance, includes, macros, apply/spaceless) by mutation of a coarse token stream: every prefix, every single-token deletion, duplication and adjacent swap, and replacement of each token by one of 60 hostile tokens (delimiters, keywords, quotes, NUL, 0xFF, huge numbers); each mutant is parsed and rendered with the other templates of the set loadable and a context of many Go value shapes, under recover and a 5 s watchdog, followed by a canary; non-trivial = the mutant contains at least one tag delimiter (it reaches the parser past tokenisation); distinct by mutant source. Excluded by construction: a template that can reach itself by name, panicking user callbacks"
+const c05SrcRule = "sources derived from generated templates (control flow, inheritance, includes, macros, apply/spaceless) by mutation of a coarse token stream: every prefix, every single-token deletion, duplication and adjacent swap, and replacement of each token by one of 60 hostile tokens (delimiters, keywords, quotes, NUL, 0xFF, huge numbers); each mutant is parsed and rendered with the other templates of the set loadable and a context of many Go value shapes, under recover and a 5 s watchdog, followed by a canary; non-trivial = the mutant contains at least one tag delimiter (it reaches the parser past tokenisation); distinct by mutant source. Excluded by construction: a template that can reach itself by name, self-recursive macros (a mutation can delete the terminating condition), panicking user callbacks"
 
 func c05Ctx(t *rapid.T, base Ctx) Ctx {
 	c := Ctx{Names: append([]string{}, base.Names...), Vals: append([]*E{}, base.Vals...)}
@@ -233,6 +233,7 @@ func c05Ctx(t *rapid.T, base Ctx) Ctx {
 func TestC05Mutations(t *testing.T) {
 	r := NewRec(t, "C05", c05SrcRule)
 	defer r.Flush()
+	c12Recursion = false // see c12_test.go: mutants of a recursive macro may recurse without end (exempt)
 	rapid.Check(t, func(rt *rapid.T) {
 		sc, kind := genStructured(rt)
 		srcs := sc.Set.Sources(SPrint{})
